@@ -30,9 +30,10 @@ func containsSpan(t types.Type, depth int) bool {
 	return false
 }
 
-func ruleResync(c *Ctx) {
-	c.Rule("RESYNC", "The inline tokenizer keeps two cursors: a byte position and the index of the line (unparsed node) it lies in. A scanner that is handed a reader over state.unparsed[state.unparsedPos:] and returns spans (parseHTMLTag, parseLinkLabel, …) may stop on a later line. Wherever a function of the tokenizer then moves on to a position that is not simply its own start plus a constant — it returns such a value, or feeds it to the position variable of its scanning loop — every path from the scanner call to that point within the same loop iteration stores state.unparsedPos (directly, or in a callee that is given the state). Otherwise the text between the old line's end and the new position is tokenized a second time: a full reference link whose label continues on the next line leaves `bar]` behind as text, overlapping the link.")
-	p := c.P
+// resyncInfo: the functions that store inlineState.unparsedPos (directly, in their closures, or transitively through
+// static callees), and the predicate "this instruction moves the line cursor" (a store, or a call of such a function
+// that is handed the state).
+func resyncInfo(p *Program) (map[*ssa.Function]bool, func(ssa.Instruction) bool) {
 	// functions that store inlineState.unparsedPos, transitively through callees that receive an *inlineState
 	stores := map[*ssa.Function]bool{}
 	for _, fn := range p.Funcs {
@@ -78,6 +79,14 @@ func ruleResync(c *Ctx) {
 		}
 		return false
 	}
+	return stores, isResync
+}
+
+func ruleResync(c *Ctx) {
+	c.Rule("RESYNC", "The inline tokenizer keeps two cursors: a byte position and the index of the line (unparsed node) it lies in. A scanner that is handed a reader over state.unparsed[state.unparsedPos:] and returns spans (parseHTMLTag, parseLinkLabel, …) may stop on a later line. Wherever a function of the tokenizer then moves on to a position that is not simply its own start plus a constant — it returns such a value, or feeds it to the position variable of its scanning loop — every path from the scanner call to that point within the same loop iteration stores state.unparsedPos (directly, or in a callee that is given the state). Otherwise the text between the old line's end and the new position is tokenized a second time: a full reference link whose label continues on the next line leaves `bar]` behind as text, overlapping the link.")
+	p := c.P
+	stores, isResync := resyncInfo(p)
+	_ = stores
 	n := 0
 	for _, fn := range p.Funcs {
 		if fn.Pkg != p.CMs || fn.Blocks == nil {
